@@ -175,6 +175,9 @@ def join_aux(source_name, source_key, source_delete,  # noqa: C901
              target_name, target_key, fields, full, mode):
 
     deduplication = target_key is None
+    # the field mapping is completed (and, with '*', expanded) in place below: work on a copy, the
+    # caller's specification may be used for another join (a completed `count` reads differently)
+    fields = copy.deepcopy(fields)
     # `count` counts the occurrences of a key; when it is given the `name` of a
     # source field it counts the non-null values of that field
     counted_fields = set(field for field, spec in fields.items()
